@@ -135,6 +135,7 @@ def run(ctx):
                 "as seeded small batches; non-trivial = pair with 0 < distance and both effective strings "
                 "non-empty, distinct by (mode, costs, ref row, hyp row)")
     ctx.assumptions += [
+        "cost triples with one zero cost (and all three zero) are part of the exhaustive universe (EditDistance_zero.cfg)",
         "costs are dyadic multiples of the spec's integer costs (float32 arithmetic exact); equal costs also times 0.1 / "
         "0.3 / 0.7 (the common cost is factored out by the library: one rounding, compared at 1e-6 relative); one cost of "
         "2**23 next to costs 1 and 2 (results compared at 1e-6 relative)",
@@ -144,7 +145,7 @@ def run(ctx):
         "tensors have R,H >= 1 (zero-sized dimensions make the library's length inference raise inside torch)",
         "norm=True with an empty reference is not judged for C01 (the statement fixes no value there)",
     ]
-    recs = _ed.run_design(ctx, {"core"})
+    recs = _ed.run_design(ctx, {"core", "zero"})
     groups = _ed.group_records(recs)
     ctx.exhaustive = True
     for key in sorted(groups):
